@@ -1273,6 +1273,13 @@ class Engine:
         return V(val.t, z3.If(has, val.z, d.z))
       if name == 'keys':
         return V(Ty('set', [base.t.args[0]]), sv.d_keys(base))
+      if name == 'values' and not args:
+        # the values of a dict, as far as membership / quantification goes: the set of v with some key k -> v
+        kk = z3.Const(sv.fresh_name('vk'), sv.zsort(base.t.args[0]))
+        xv = z3.Const(sv.fresh_name('vv'), sv.zsort(base.t.args[1]))
+        return V(Ty('set', [base.t.args[1]]),
+                 z3.Lambda([xv], z3.Exists([kk], z3.And(z3.Select(sv.d_keys(base), kk),
+                                                         z3.Select(sv.d_vals(base), kk) == xv))))
     raise Unsupported('method %s on %r' % (name, base.t))
 
   def call_inline(self, fdef, args, st):
